@@ -86,7 +86,7 @@ var srcC18 = []*g2lTarget{
 		// generateSignatureEnvelope from the plugin's answer on: everything the signer checks before it
 		// hands the envelope back. The plugin call itself, envelope parsing and verification
 		// (notation-core-go), the two JSON decodings and findDuplicateKey are oracles (fields of `World`).
-		file: "signer/plugin.go", recv: "PluginSigner", fn: "generateSignatureEnvelope", leanName: "checkGeneratedEnvelope",
+		file: "signer/plugin.go", recv: "PluginSigner", fn: "generateSignatureEnvelope", recvName: "s", leanName: "checkGeneratedEnvelope",
 		after: "s.plugin.GenerateEnvelope",
 		params: "(w : World) (desc : ocispec.Descriptor) (opts : «notation».SignerSignOptions) " +
 			"(req : plugin.GenerateEnvelopeRequest) (resp : plugin.GenerateEnvelopeResponse) (err : Option GoLite.Err)",
